@@ -248,9 +248,51 @@ func lenOffsetTable(v ssa.Value) (tbl [3]bool, it ssa.Value, lenCall, offCall *s
 	return tbl, rx, lenCall, offCall, true
 }
 
+// psiScanFunc: the function that scans the sections of an assembled PSI payload: isPSIComplete itself, or — when the scan
+// was extracted — the helper of the package whose boolean result isPSIComplete returns.
+func (a *A) psiScanFunc(rule string) *ssa.Function {
+	f := a.anchor(rule, "isPSIComplete")
+	for depth := 0; f != nil && depth < 3; depth++ {
+		hasFetch := false
+		var delegate *ssa.Function
+		for _, b := range f.Blocks {
+			for _, in := range b.Instrs {
+				c, ok := in.(*ssa.Call)
+				if !ok {
+					continue
+				}
+				if n, recv, _ := iterMethod(c); recv != nil && (n == "NextByte" || n == "NextBytes" || n == "NextBytesNoCopy") {
+					hasFetch = true
+				}
+				cal := c.Call.StaticCallee()
+				if cal == nil || cal.Pkg != a.P.SSAPkg || len(cal.Blocks) == 0 || cal.Signature.Results().Len() != 1 {
+					continue
+				}
+				if bt, ok := cal.Signature.Results().At(0).Type().Underlying().(*types.Basic); !ok || bt.Info()&types.IsBoolean == 0 {
+					continue
+				}
+				for _, ret := range ssau.Returns(f) {
+					if len(ret.Results) == 1 {
+						for _, l := range ssau.Leaves(ret.Results[0]) {
+							if l == ssa.Value(c) {
+								delegate = cal
+							}
+						}
+					}
+				}
+			}
+		}
+		if hasFetch || delegate == nil {
+			return f
+		}
+		f = delegate
+	}
+	return f
+}
+
 func (a *A) exactFitComplete() {
 	const rule, key = "R6", "isPSIComplete/exact-fit-complete"
-	f := a.anchor(rule, "isPSIComplete")
+	f := a.psiScanFunc(rule)
 	if f == nil {
 		return
 	}
@@ -336,7 +378,7 @@ func (a *A) exactFitComplete() {
 // between yield the same value.
 func (a *A) sectionSeenBeforeComplete() {
 	const rule, key = "R9", "isPSIComplete/section-seen-before-complete"
-	f := a.anchor(rule, "isPSIComplete")
+	f := a.psiScanFunc(rule)
 	if f == nil {
 		return
 	}
@@ -470,7 +512,7 @@ func (a *A) sectionSeenBeforeComplete() {
 // payload belong to a section that is still arriving; judging the unit complete there hands the parser a cut section).
 func (a *A) failedFetchIncomplete() {
 	const rule, key = "R10", "isPSIComplete/failed-fetch-means-incomplete"
-	f := a.anchor(rule, "isPSIComplete")
+	f := a.psiScanFunc(rule)
 	if f == nil {
 		return
 	}
@@ -948,7 +990,32 @@ func (a *A) assembledIn(rule string, f *ssa.Function, dispatch bool) {
 	var first ssa.Instruction
 	for _, c := range ssau.Calls(f) {
 		cc, ok := c.(*ssa.Call)
-		if !ok || !isNewIterator(cc) {
+		if !ok {
+			continue
+		}
+		if !isNewIterator(cc) {
+			// a helper of the package that is handed the assembled buffer and builds the iterator over that parameter
+			if cal := cc.Call.StaticCallee(); cal != nil && cal.Pkg == a.P.SSAPkg && len(cal.Blocks) > 0 {
+				for i, arg := range cc.Call.Args {
+					if i >= len(cal.Params) {
+						continue
+					}
+					if st, _ := a.fromAssembled(as, arg); st != 0 {
+						continue
+					}
+					for _, hc := range ssau.Calls(cal) {
+						if h, ok := hc.(*ssa.Call); ok && isNewIterator(h) && h.Call.Args[0] == ssa.Value(cal.Params[i]) {
+							if first == nil {
+								first = cc
+							}
+							as.iters[cc] = true
+							if w := afterLoop(cc); w != "" {
+								bad = append(bad, w)
+							}
+						}
+					}
+				}
+			}
 			continue
 		}
 		if first == nil {
